@@ -237,6 +237,11 @@ def generate(rng, tier):
     # (props/kdlegacy.py); 39 such streams are part of the frozen corpus (legacy/kdlegacy_*.drc, tools/freeze_kdlegacy.py)
     from . import kdlegacy
     cases += kdlegacy.cases(rng, tier)
+    # legacy (1.0 .. 2.1) MESH decode paths: 2.2 Edgebreaker / sequential mesh streams of the real encoder re-laid out for
+    # every older version (props/meshlegacy.py: generator self check = accepted with the geometry of the 2.2 original), their
+    # skip decodes and corruptions against the Lean decoder model; a sample is frozen (legacy/meshlegacy_*.drc)
+    from . import meshlegacy
+    cases += meshlegacy.cases(rng, tier)
     return cases
 
 
